@@ -1,17 +1,27 @@
 #!/bin/bash
-# usage: tools/regress_all.sh [parallelism]  — every stored seeded change must still be caught, every stored property-preserving refactor must stay quiet
-cd /verif
+# usage: tools/regress_all.sh [parallelism]  — every stored seeded change must still be caught, every stored property-preserving
+# refactor must stay quiet.  Parallel across properties only: two experiments on the same property would race on that
+# property's generated Lean files.
 P=${1:-5}
-ls seeded | grep -v harmless | xargs -P $P -I{} sh -c 'tools/retest_seed.sh {} 2>&1 | grep -v "^WARNING" | tail -1'
-for d in seeded/harmless/*; do
-  name=$(basename $d); prop=${name%%-*}
-  wt=/tmp/reharm_$name
-  git -C /repo worktree add -q --detach $wt HEAD || continue
-  if git -C $wt apply $d/patch.diff 2>/dev/null || git -C $wt apply -3 $d/patch.diff 2>/dev/null; then
-    out=$(VERIF_REPO=$wt /verif/check $prop quick 2>&1 | grep -v "^WARNING" | grep -v "^KNOWN")
-    echo "harmless $name: $(echo "$out" | grep -c '^VIOLATION') violation lines; $(echo "$out" | tail -1)"
-  else
-    echo "harmless $name: PATCH-DOES-NOT-APPLY"
-  fi
-  git -C /repo worktree remove --force $wt
-done
+cd /verif
+one_prop() {
+  prop=$1
+  for d in /verif/seeded/$prop-*; do
+    [ -d "$d" ] || continue
+    /verif/tools/retest_seed.sh $(basename $d) 2>&1 | grep -v "^WARNING" | tail -1
+  done
+  for d in /verif/seeded/harmless/$prop-*; do
+    [ -d "$d" ] || continue
+    name=$(basename $d); wt=/tmp/reharm_$name
+    git -C /repo worktree add -q --detach $wt HEAD || continue
+    if git -C $wt apply $d/patch.diff 2>/dev/null || git -C $wt apply -3 $d/patch.diff 2>/dev/null; then
+      out=$(VERIF_REPO=$wt /verif/check $prop quick 2>&1 | grep -v "^WARNING" | grep -v "^KNOWN")
+      echo "harmless $name: $(echo "$out" | grep -c '^VIOLATION') violation lines; $(echo "$out" | tail -1)"
+    else
+      echo "harmless $name: PATCH-DOES-NOT-APPLY"
+    fi
+    git -C /repo worktree remove --force $wt
+  done
+}
+export -f one_prop
+for i in $(seq -w 1 20); do echo C$i; done | xargs -P $P -I{} bash -c 'one_prop {}'
